@@ -140,6 +140,13 @@ def safe_literal_eval(value):
         return ''
 
 
+def get_function_name(funcdef):
+    # Lambdas have no name.
+    if funcdef.type == 'lambdef':
+        return '<lambda>'
+    return funcdef.name.value
+
+
 def get_signature(funcdef, width=72, call_string=None,
                   omit_first_param=False, omit_return_annotation=False):
     """
